@@ -503,11 +503,12 @@ pub struct LimitsOracle {
     ended: u64,
     overlapping_syns: u64,
     pending_now: u64,
+    tracked_now: u64,
 }
 
 impl LimitsOracle {
     pub fn new(property: &'static str) -> Self {
-        Self { property, active: BTreeSet::new(), max_active_seen: 0, max_total_seen: 0, checks: 0, refusals: 0, server_full_events: BTreeSet::new(), client_connects: BTreeSet::new(), client_errors: BTreeMap::new(), ended: 0, overlapping_syns: 0, pending_now: 0 }
+        Self { property, active: BTreeSet::new(), max_active_seen: 0, max_total_seen: 0, checks: 0, refusals: 0, server_full_events: BTreeSet::new(), client_connects: BTreeSet::new(), client_errors: BTreeMap::new(), ended: 0, overlapping_syns: 0, pending_now: 0, tracked_now: 0 }
     }
 }
 
@@ -574,6 +575,7 @@ impl Oracle for LimitsOracle {
                         self.overlapping_syns += 1;
                     }
                     self.pending_now = pending;
+                    self.tracked_now = s.clients_len as u64;
                     if s.clients_len as u64 > *max_total {
                         return viol(prop, "too_many_tracked_connections", format!("server {} tracks {} connections (connecting, established, closing), max_total_connections = {}", ep, s.clients_len, max_total), *call);
                     }
@@ -593,6 +595,10 @@ impl Oracle for LimitsOracle {
                     }
                     // capacity returns: the late client (created after enough connections ended)
                     let late = cx.plan.param("late_client_ep", -1.0);
+                    // ... and by then every earlier entry (ended, lingering, abandoned) is gone
+                    if late >= 0.0 && self.tracked_now > 1 {
+                        return viol(prop, "ended_connections_still_tracked", format!("the server still tracks {} connections although every connection but the late client's ended more than (22 s + silence timeout) ago", self.tracked_now), 0);
+                    }
                     if late >= 0.0 && !self.client_connects.contains(&(late as usize)) {
                         return viol(prop, "capacity_not_returned", format!("client {} arrived after connections had ended and their closed entries expired, but was not admitted (its events: {:?})", late, self.client_errors.get(&(late as usize)).map(|k| err_name(*k))), 0);
                     }
